@@ -493,7 +493,7 @@ impl StyleData {
                         for style in rules {
                             Self::merge_computed_style(
                                 &mut result,
-                                false,
+                                style.importance == Importance::Important,
                                 StyleOrigin::Author,
                                 Specificity::inline(),
                                 None,
